@@ -527,6 +527,7 @@ func (s *Syncer) LoadOnce(ctx context.Context, env *lmdb.Env, instance string, u
 		return 0, false, err
 	}
 	tLoaded := time.Now()
+	verifNoteTxn(s, txnID)
 	verifYield(s, "load.afterTxn")
 
 	// If no actual changes were made, LMDB will not record the transaction
